@@ -3,7 +3,7 @@
 From Coq Require Import Permutation Sorted.
 From ZV.Common Require Import Base.
 From ZV.Gen Require Import ConstsC10.
-From ZV.C10 Require Import Model ModelArena ProofsArena ModelStrVec.
+From ZV.C10 Require Import Model ModelArena ProofsArena ModelStrVec ProofsRadix.
 Open Scope N_scope.
 
 (* the side conditions the proofs place on the constants of the source, re-proved against the regenerated values *)
@@ -117,7 +117,7 @@ Qed.
 Lemma SV_push v st s :
   SV v st ->
   snd (ssv_push_str_with true v s) = snd (svs_step usort st (SPush s)) /\
-  SV (fst (ssv_push_str_with true v s)) (fst (svs_step usort st (SPush s))).
+  (bytes_ok s -> SV (fst (ssv_push_str_with true v s)) (fst (svs_step usort st (SPush s)))).
 Proof.
   intros H. pose proof (SV_total _ _ H) as Ht. unfold ssv_push_str_with. cbn [svs_step].
   assert (Hne : nlen (entries v) = nlen (sl st)) by (rewrite !nlen_length, (SV_entries_length v st H); reflexivity).
@@ -131,18 +131,19 @@ Proof.
   { destruct (N.ltb_spec 549755813887 (total_len (sl st))); destruct (N.ltb_spec 1099511627775 (total_len (sl st) + nlen s));
       destruct (N.ltb_spec 1048575 (nlen s)); cbn [andb orb]; try (left; split; reflexivity); try (right; split; reflexivity); lia. }
   destruct Hcond as [[-> ->]|[-> Hc]].
-  - cbn [fst snd]. split; [reflexivity|exact H].
+  - cbn [fst snd]. split; [reflexivity|intros _; exact H].
   - rewrite <- Hc. destruct (N.ltb_spec 1048575 (nlen s)) as [Hbig|Hok].
-    + cbn [fst snd]. split; [reflexivity|exact H].
+    + cbn [fst snd]. split; [reflexivity|intros _; exact H].
     + assert (Hfits : total_len (sl st) + nlen s <= 1099511627775).
       { destruct (N.ltb_spec 1099511627775 (total_len (sl st) + nlen s)); [|assumption]. cbn [orb] in Hc. discriminate. }
       cbn [fst snd]. split.
       * reflexivity.
-      * constructor; cbn [arena entries sidx is_sorted sl sx ssorted].
+      * intros Hbytes. constructor; cbn [arena entries sidx is_sorted sl sx ssorted].
         -- rewrite concat_app. cbn [concat]. rewrite app_nil_r. reflexivity.
         -- rewrite layout_app. cbn [layout]. rewrite (SV_entries _ _ H). unfold total_len.
            repeat f_equal; lia.
         -- apply Forall_app. split; [apply (SV_lens _ _ H)|]. constructor; [exact Hok|constructor].
+        -- apply Forall_app. split; [apply (SV_bytes _ _ H)|]. constructor; [exact Hbytes|constructor].
         -- unfold total_len in *. rewrite nlen_concat_app. exact Hfits.
         -- apply (SV_idx _ _ H).
         -- reflexivity.
@@ -188,7 +189,7 @@ Lemma SV_set_sorted v st idx :
   SV (ssv_set_sorted v idx) {| sl := sl st; sx := idx; ssorted := true |}.
 Proof.
   intros H Hp Hn. constructor; cbn [ssv_set_sorted arena entries sidx is_sorted sl sx ssorted];
-    [apply (SV_arena _ _ H)|apply (SV_entries _ _ H)|apply (SV_lens _ _ H)|apply (SV_total _ _ H)|reflexivity|reflexivity|exact Hp|lia|intros _; exact Hn].
+    [apply (SV_arena _ _ H)|apply (SV_entries _ _ H)|apply (SV_lens _ _ H)|apply (SV_bytes _ _ H)|apply (SV_total _ _ H)|reflexivity|reflexivity|exact Hp|lia|intros _; exact Hn].
 Qed.
 
 Lemma SV_sort_keyed v st f :
@@ -212,13 +213,21 @@ Proof.
   cbn [rbind]. rewrite (nth_error_nth _ _ 0 Eo). apply SV_get. exact H.
 Qed.
 
+Lemma keyed_ok st idx :
+  Forall bytes_ok (sl st) -> (forall i, In i idx -> (N.to_nat i < length (sl st))%nat) ->
+  Forall item_ok (svs_keyed (sl st) idx).
+Proof.
+  intros Hb Hv. unfold svs_keyed. rewrite Forall_map, Forall_forall. intros i Hi. unfold item_ok. cbn [snd].
+  rewrite Forall_forall in Hb. apply Hb. unfold str_at. apply nth_In. apply Hv. exact Hi.
+Qed.
+
 Lemma ssv_step_refines v st o :
-  SV v st ->
+  SV v st -> sop_wf o ->
   exists v', ssv_step usort v o = Done (v', snd (svs_step usort st o)) /\ SV v' (fst (svs_step usort st o)).
 Proof.
-  intros H. unfold ssv_step.
-  destruct o as [s|i| | | | | |f|i| ]; cbn [ssv_step_with].
-  - destruct (SV_push v st s H) as [Ho HS]. eexists. split; [|exact HS].
+  intros H Hwf. unfold ssv_step.
+  destruct o as [s|i| | | | | |f|i| | ]; cbn [ssv_step_with].
+  - destruct (SV_push v st s H) as [Ho HS]. specialize (HS Hwf). eexists. split; [|exact HS].
     rewrite <- Ho. destruct (ssv_push_str_with true v s). reflexivity.
   - rewrite (SV_get v st i H). cbn [rbind svs_step fst snd]. exists v. split; [reflexivity|exact H].
   - cbn [svs_step fst snd]. exists v. split; [|exact H]. rewrite !nlen_length, (SV_entries_length v st H). reflexivity.
@@ -256,16 +265,40 @@ Proof.
   - rewrite (SV_get_sorted v st i H). cbn [rbind svs_step fst snd]. exists v. split; [reflexivity|exact H].
   - unfold ssv_iter_sorted. rewrite (rmap_done (ssv_get_sorted v) (svs_get_sorted st)) by (intros i _; apply SV_get_sorted; exact H).
     cbn [rbind svs_step fst snd]. rewrite (SV_idx _ _ H). exists v. split; [reflexivity|exact H].
+  - unfold ssv_radix_sort. cbn [svs_step fst snd]. rewrite (SV_idx _ _ H), (SV_all v st H).
+    rewrite (nlen_length (entries v)), (SV_entries_length v st H), <- (nlen_length (sl st)).
+    set (idx0 := if nlen (sx st) =? nlen (sl st) then sx st else svs_all (sl st)).
+    assert (Hp0 : Permutation idx0 (nseq 0 (length (sl st)))).
+    { unfold idx0. rewrite !nlen_length. destruct (N.eqb_spec (N.of_nat (length (sx st))) (N.of_nat (length (sl st)))) as [E|E].
+      - replace (length (sl st)) with (length (sx st)) by lia. apply (SV_perm _ _ H).
+      - apply Permutation_refl. }
+    assert (Hvalid : forall i, In i idx0 -> (N.to_nat i < length (sl st))%nat).
+    { intros i Hi. apply (Permutation_in _ Hp0) in Hi. apply nseq_In in Hi. lia. }
+    destruct (N.eqb_spec (nlen (sl st)) 0) as [Ez|Enz].
+    + eexists. split; [reflexivity|]. apply SV_set_sorted; [exact H| |].
+      * rewrite (Permutation_length Hp0), nseq_length. exact Hp0.
+      * rewrite (Permutation_length Hp0), nseq_length. reflexivity.
+    + rewrite (SV_keyed v st idx0 H Hvalid). cbn [rbind]. eexists. split; [reflexivity|].
+      set (data := svs_keyed (sl st) idx0).
+      assert (Hq : Permutation idx0 (map fst (msd usort (msd_fuel data) 0 data))).
+      { pose proof (Permutation_map fst (msd_perm usort usort_perm (msd_fuel data) 0 data (keyed_ok st idx0 (SV_bytes _ _ H) Hvalid))) as Hm.
+        assert (Hd : map fst data = idx0) by (unfold data, svs_keyed; rewrite map_map; cbn [fst]; apply map_id).
+        rewrite Hd in Hm. exact Hm. }
+      assert (Hn : length (map fst (msd usort (msd_fuel data) 0 data)) = length (sl st)).
+      { rewrite <- (Permutation_length Hq), (Permutation_length Hp0). apply nseq_length. }
+      apply SV_set_sorted; [exact H| |exact Hn].
+      rewrite Hn. eapply Permutation_trans; [apply Permutation_sym; exact Hq|exact Hp0].
 Qed.
 
 Lemma ssv_run_refines ops : forall v st,
-  SV v st ->
+  SV v st -> Forall sop_wf ops ->
   exists v', ssv_run usort v ops = Done (v', snd (svs_run usort st ops)) /\ SV v' (fst (svs_run usort st ops)).
 Proof.
-  induction ops as [|o t IH]; intros v st H.
+  induction ops as [|o t IH]; intros v st H Hwf.
   - exists v. split; [reflexivity|exact H].
-  - destruct (ssv_step_refines v st o H) as [v1 [E1 H1]].
-    destruct (IH v1 _ H1) as [v2 [E2 H2]].
+  - inversion Hwf as [|? ? Ho Ht]; subst.
+    destruct (ssv_step_refines v st o H Ho) as [v1 [E1 H1]].
+    destruct (IH v1 _ H1 Ht) as [v2 [E2 H2]].
     unfold ssv_run, ssv_step in *. cbn [ssv_run_with svs_run]. rewrite E1. cbn [rbind fst snd]. rewrite E2. cbn [rbind fst snd].
     exists v2. split; [reflexivity|exact H2].
 Qed.
@@ -337,6 +370,70 @@ Proof.
     apply (total_preorder_on f snd Hf).
 Qed.
 
+(* the view of an index vector obtained by rearranging the keyed pairs *)
+Lemma view_of_pairs (l : list bytes) idx0 (sorted : list (N * bytes)) :
+  Permutation idx0 (svs_all l) -> Permutation (svs_keyed l idx0) sorted ->
+  until_none (map (svs_get_sorted {| sl := l; sx := map fst sorted; ssorted := true |}) (nseq 0 (length (map fst sorted))))
+    = map snd sorted /\
+  Permutation (map snd sorted) l.
+Proof.
+  intros Hp0 Hps.
+  assert (Hkey : Forall (fun p : N * bytes => snd p = str_at l (fst p) /\ (N.to_nat (fst p) < length l)%nat) sorted).
+  { eapply Permutation_Forall; [exact Hps|]. unfold svs_keyed. rewrite Forall_map. rewrite Forall_forall. intros i Hi.
+    cbn [fst snd]. split; [reflexivity|]. apply all_valid. eapply Permutation_in; [exact Hp0|exact Hi]. }
+  split.
+  - rewrite view_of_idx.
+    + rewrite map_map. apply map_ext_in. intros p Hpin. rewrite Forall_forall in Hkey. symmetry. apply (Hkey p Hpin).
+    + intros i Hi. apply in_map_iff in Hi. destruct Hi as [p [<- Hpin]]. rewrite Forall_forall in Hkey. apply (Hkey p Hpin).
+  - eapply Permutation_trans; [apply Permutation_sym, (Permutation_map snd Hps)|].
+    unfold svs_keyed. rewrite map_map. cbn [snd].
+    eapply Permutation_trans; [apply (Permutation_map (str_at l) Hp0)|].
+    unfold svs_all, str_at. rewrite map_nth_nseq. apply Permutation_refl.
+Qed.
+
+(* radix_sort: the same sorted view as sort_lexicographic *)
+Lemma strvec_radix_sort_proof v st :
+  SV v st ->
+  exists v' view,
+    ssv_radix_sort usort v = Done v' /\
+    SV v' {| sl := sl st; sx := sidx v'; ssorted := true |} /\
+    ssv_iter_sorted v' = Done view /\
+    Permutation view (sl st) /\ StronglySorted lex_le view /\
+    view = isort_by _ lex_cmp (sl st).
+Proof.
+  intros H.
+  destruct (ssv_step_refines v st SRadix H I) as [v' [E HS']]. unfold ssv_step in E. cbn [ssv_step_with] in E.
+  destruct (ssv_radix_sort usort v) as [v1|] eqn:E1; [|discriminate]. cbn [rbind] in E. injection E as <-.
+  cbn [svs_step fst snd] in HS'.
+  set (idx0 := if nlen (sx st) =? nlen (sl st) then sx st else svs_all (sl st)) in *.
+  set (st' := {| sl := sl st; sx := _; ssorted := true |}) in HS'.
+  destruct (ssv_step_refines v1 st' SIterSorted HS' I) as [v2 [E2 _]]. unfold ssv_step in E2. cbn [ssv_step_with] in E2.
+  destruct (ssv_iter_sorted v1) as [view|] eqn:Ev; [|discriminate]. cbn [rbind svs_step fst snd] in E2.
+  assert (Hview : view = until_none (map (svs_get_sorted st') (nseq 0 (length (sx st'))))) by (injection E2 as _ ->; reflexivity).
+  assert (Hsx : sidx v1 = sx st') by apply (SV_idx _ _ HS').
+  exists v1, view. split; [reflexivity|]. split; [rewrite Hsx; exact HS'|]. split; [exact Ev|].
+  assert (Hp0 : Permutation idx0 (svs_all (sl st))).
+  { unfold idx0, svs_all. rewrite !nlen_length. destruct (N.eqb_spec (N.of_nat (length (sx st))) (N.of_nat (length (sl st)))) as [E|E].
+    - replace (length (sl st)) with (length (sx st)) by lia. apply (SV_perm _ _ H).
+    - apply Permutation_refl. }
+  assert (Hgoal : Permutation view (sl st) /\ StronglySorted lex_le view).
+  { rewrite Hview. unfold st'. cbn [sl sx].
+    destruct (N.eqb_spec (nlen (sl st)) 0) as [Ez|Enz].
+    - assert (El : sl st = []) by (destruct (sl st); [reflexivity|cbn [nlen] in Ez; lia]).
+      assert (Ei : idx0 = []).
+      { apply Permutation_length in Hp0. unfold svs_all in Hp0. rewrite nseq_length, El in Hp0. destruct idx0; [reflexivity|discriminate]. }
+      rewrite Ei, El. cbn. split; [apply Permutation_refl|constructor].
+    - set (data := svs_keyed (sl st) idx0).
+      assert (Hok : Forall item_ok data).
+      { apply keyed_ok; [apply (SV_bytes _ _ H)|]. intros i Hi. apply all_valid. eapply Permutation_in; [exact Hp0|exact Hi]. }
+      destruct (view_of_pairs (sl st) idx0 (msd usort (msd_fuel data) 0 data) Hp0 (msd_perm usort usort_perm _ 0 data Hok)) as [Hv Hperm].
+      rewrite Hv. split; [exact Hperm|].
+      apply StronglySorted_map. apply (msd_top_sorted usort usort_perm usort_sorted data Hok). }
+  destruct Hgoal as [Hp Hs]. split; [exact Hp|]. split; [exact Hs|].
+  apply (sorted_perm_unique _ lex_cmp lex_total_preorder (fun a b => lex_cmp_eq a b)); [|exact Hs|apply isort_by_sorted; exact lex_total_preorder].
+  eapply Permutation_trans; [exact Hp|apply isort_by_perm].
+Qed.
+
 (* sort_lexicographic / sort: the sorted view is the lexicographically sorted permutation of the pushed strings,
    the strings themselves and their insertion order are untouched *)
 Lemma strvec_sort_lex_proof v st :
@@ -349,11 +446,11 @@ Lemma strvec_sort_lex_proof v st :
     view = isort_by _ lex_cmp (sl st).
 Proof.
   intros H.
-  destruct (ssv_step_refines v st SSortLex H) as [v' [E HS']]. unfold ssv_step in E. cbn [ssv_step_with] in E.
+  destruct (ssv_step_refines v st SSortLex H I) as [v' [E HS']]. unfold ssv_step in E. cbn [ssv_step_with] in E.
   destruct (ssv_sort_lex usort v) as [v1|] eqn:E1; [|discriminate]. cbn [rbind] in E. injection E as <-.
   cbn [svs_step fst snd] in HS'.
   set (st' := {| sl := sl st; sx := _; ssorted := true |}) in HS'.
-  destruct (ssv_step_refines v1 st' SIterSorted HS') as [v2 [E2 _]]. unfold ssv_step in E2. cbn [ssv_step_with] in E2.
+  destruct (ssv_step_refines v1 st' SIterSorted HS' I) as [v2 [E2 _]]. unfold ssv_step in E2. cbn [ssv_step_with] in E2.
   destruct (ssv_iter_sorted v1) as [view|] eqn:Ev; [|discriminate]. cbn [rbind svs_step fst snd] in E2.
   assert (Hview : view = until_none (map (svs_get_sorted st') (nseq 0 (length (sx st'))))) by (injection E2 as _ ->; reflexivity).
   assert (Hsx : sidx v1 = sx st') by apply (SV_idx _ _ HS').
@@ -380,11 +477,11 @@ Lemma strvec_sort_by_proof v st f :
     Permutation view (sl st) /\ StronglySorted (fun a b => f a b <> Gt) view.
 Proof.
   intros H Hf.
-  destruct (ssv_step_refines v st (SSortBy f) H) as [v' [E HS']]. unfold ssv_step in E. cbn [ssv_step_with] in E.
+  destruct (ssv_step_refines v st (SSortBy f) H I) as [v' [E HS']]. unfold ssv_step in E. cbn [ssv_step_with] in E.
   destruct (ssv_sort_by usort f v) as [v1|] eqn:E1; [|discriminate]. cbn [rbind] in E. injection E as <-.
   cbn [svs_step fst snd] in HS'.
   set (st' := {| sl := sl st; sx := _; ssorted := true |}) in HS'.
-  destruct (ssv_step_refines v1 st' SIterSorted HS') as [v2 [E2 _]]. unfold ssv_step in E2. cbn [ssv_step_with] in E2.
+  destruct (ssv_step_refines v1 st' SIterSorted HS' I) as [v2 [E2 _]]. unfold ssv_step in E2. cbn [ssv_step_with] in E2.
   destruct (ssv_iter_sorted v1) as [view|] eqn:Ev; [|discriminate]. cbn [rbind svs_step fst snd] in E2.
   assert (Hview : view = until_none (map (svs_get_sorted st') (nseq 0 (length (sx st'))))) by (injection E2 as _ ->; reflexivity).
   assert (Hsx : sidx v1 = sx st') by apply (SV_idx _ _ HS').
@@ -403,12 +500,12 @@ Lemma strvec_sort_by_length_proof v st :
     Permutation view (sl st) /\ StronglySorted (fun a b => nlen a <= nlen b) view.
 Proof.
   intros H.
-  destruct (ssv_step_refines v st SSortByLen H) as [v' [E HS']]. unfold ssv_step in E. cbn [ssv_step_with] in E.
+  destruct (ssv_step_refines v st SSortByLen H I) as [v' [E HS']]. unfold ssv_step in E. cbn [ssv_step_with] in E.
   destruct (ssv_sort_by_length usort v) as [v1|] eqn:E1; [|discriminate]. cbn [rbind] in E. injection E as <-.
   cbn [svs_step fst snd] in HS'.
   set (idx0 := if nlen (sx st) =? nlen (sl st) then sx st else svs_all (sl st)) in *.
   set (st' := {| sl := sl st; sx := _; ssorted := true |}) in HS'.
-  destruct (ssv_step_refines v1 st' SIterSorted HS') as [v2 [E2 _]]. unfold ssv_step in E2. cbn [ssv_step_with] in E2.
+  destruct (ssv_step_refines v1 st' SIterSorted HS' I) as [v2 [E2 _]]. unfold ssv_step in E2. cbn [ssv_step_with] in E2.
   destruct (ssv_iter_sorted v1) as [view|] eqn:Ev; [|discriminate]. cbn [rbind svs_step fst snd] in E2.
   assert (Hview : view = until_none (map (svs_get_sorted st') (nseq 0 (length (sx st'))))) by (injection E2 as _ ->; reflexivity).
   assert (Hsx : sidx v1 = sx st') by apply (SV_idx _ _ HS').
@@ -457,25 +554,27 @@ Proof. split; [intros; apply isort_by_perm|intros T c l Hc; apply isort_by_sorte
 (* ---------- top-level statements ---------- *)
 Lemma strvec_refines_spec_proof usort :
   (forall T c l, Permutation l (usort T c l)) ->
-  forall ops, exists v', ssv_run usort ssv_new ops = Done (v', snd (svs_run usort svs_new ops)) /\
-                         SV v' (fst (svs_run usort svs_new ops)).
-Proof. intros Hp ops. apply (ssv_run_refines usort Hp). apply SV_new. Qed.
+  forall ops, Forall sop_wf ops ->
+  exists v', ssv_run usort ssv_new ops = Done (v', snd (svs_run usort svs_new ops)) /\
+             SV v' (fst (svs_run usort svs_new ops)).
+Proof. intros Hp ops Hwf. apply (ssv_run_refines usort Hp); [apply SV_new|exact Hwf]. Qed.
 
 Lemma strvec_get_pushes_proof usort :
   (forall T c l, Permutation l (usort T c l)) ->
   forall (ss : list bytes) i,
-  Forall (fun s => nlen s <= SSV_MAX_LENGTH) ss -> total_len ss <= SSV_MAX_OFFSET ->
+  Forall bytes_ok ss -> Forall (fun s => nlen s <= SSV_MAX_LENGTH) ss -> total_len ss <= SSV_MAX_OFFSET ->
   exists v', ssv_run usort ssv_new (map SPush ss) = Done (v', map (fun k => OId (N.of_nat k)) (seq 0 (length ss))) /\
              ssv_get v' i = Done (nth_error ss (N.to_nat i)) /\
              ssv_iter v' = Done ss.
 Proof.
-  intros Hp ss i Hl Ht.
+  intros Hp ss i Hbytes Hl Ht.
   destruct (strvec_refines_spec_proof usort Hp (map SPush ss)) as [v' [E HS]].
+  { rewrite Forall_map. eapply Forall_impl; [|exact Hbytes]. intros s Hs. exact Hs. }
   destruct (svs_pushes_all_accepted usort ss svs_new Hl Ht) as [Ha Hb]. cbn [svs_new sl app nlen] in Ha, Hb.
   exists v'. split; [|split].
   - rewrite E, Hb. reflexivity.
   - rewrite (SV_get v' _ i HS), Ha. reflexivity.
-  - destruct (ssv_step_refines usort Hp v' _ SIter HS) as [v2 [E2 _]]. unfold ssv_step in E2. cbn [ssv_step_with svs_step fst snd] in E2.
+  - destruct (ssv_step_refines usort Hp v' _ SIter HS I) as [v2 [E2 _]]. unfold ssv_step in E2. cbn [ssv_step_with svs_step fst snd] in E2.
     destruct (ssv_iter v') as [l|]; [|discriminate]. cbn [rbind] in E2. injection E2 as _ ->. rewrite Ha. reflexivity.
 Qed.
 
@@ -500,11 +599,24 @@ Proof. vm_compute. split; reflexivity. Qed.
 
 Example strvec_history_example :
   let ops := [SPush [98; 0; 98]; SPush []; SPush [97]; SPush [98]; SSortLex; SIterSorted; SGetSorted 3; SGet 0; SPush [99];
-              SGetSorted 0; SSortByLen; SIterSorted; SSortBy rev_lex; SIterSorted; SIter; SLen; SClear; SLen] in
+              SGetSorted 0; SSortByLen; SIterSorted; SSortBy rev_lex; SIterSorted; SRadix; SIterSorted; SIter; SLen; SClear; SLen] in
   match ssv_run isort_by ssv_new ops with
   | Done (v, outs) => outs = snd (svs_run isort_by svs_new ops) /\
                       nth 5 outs OUnit = OList [[]; [97]; [98]; [98; 0; 98]] /\
-                      nth 13 outs OUnit = OList [[99]; [98; 0; 98]; [98]; [97]; []]
+                      nth 13 outs OUnit = OList [[99]; [98; 0; 98]; [98]; [97]; []] /\
+                      nth 15 outs OUnit = OList [[]; [97]; [98]; [98; 0; 98]; [99]]
+  | Panic => False
+  end.
+Proof. vm_compute. repeat split. Qed.
+
+(* forty strings: radix_sort goes through the bucket branch (>= 32 items, two levels deep) and yields the view of
+   sort_lexicographic *)
+Example strvec_radix_example :
+  let strs := map (fun k => [k mod 3 + 97; k mod 2 + 97; k mod 7 + 48]) (nseq 0 40) ++ [[]; [97]; [97; 97]] in
+  let pushes := map SPush strs in
+  match ssv_run isort_by ssv_new (pushes ++ [SRadix; SIterSorted; SSortLex; SIterSorted; SPush [96]; SRadix; SGetSorted 0; SGetSorted 1]) with
+  | Done (_, outs) => nth 44 outs OUnit = nth 46 outs OUnit /\ nth 44 outs OUnit = OList (isort_by _ lex_cmp strs) /\
+                      nth 49 outs OUnit = OStr (Some []) /\ nth 50 outs OUnit = OStr (Some [96])
   | Panic => False
   end.
 Proof. vm_compute. repeat split. Qed.
